@@ -188,3 +188,26 @@ Arguments step_thread {src} src_seed src_int63 {A}. Arguments result_of {src A}.
 
 (* the selection calls of one station: (seed, generation's configuration, libver, family) *)
 Definition sel_args := (bytes * option config * N * family)%type.
+
+(* ---------- histories on one selector ----------
+   A selector object holds the generation's configuration; a history is any
+   sequence of calls of the two entry points on it.  A step returns the
+   configuration it leaves behind and the call's result. *)
+Inductive hop :=
+| HSelect (seed : bytes) (lv : N) (f : family)                      (* PhantomIPSelector.Select *)
+| HSelPhantom (seed : bytes) (tr : option family) (weighted : bool). (* SelectPhantom on the same groups *)
+
+Definition hresult (cfg : option config) (o : hop) : sres phantom :=
+  match o with
+  | HSelect seed lv f => select seed cfg lv f
+  | HSelPhantom seed tr w => select_phantom seed (match cfg with Some c => c | None => [] end) tr w
+  end.
+
+Definition hstep (cfg : option config) (o : hop) : option config * sres phantom := (cfg, hresult cfg o).
+
+Fixpoint hrun (cfg : option config) (ops : list hop) : option config * list (sres phantom) :=
+  match ops with
+  | [] => (cfg, [])
+  | o :: r => let '(cfg1, x) := hstep cfg o in
+              let '(cfg2, xs) := hrun cfg1 r in (cfg2, x :: xs)
+  end.
